@@ -42,13 +42,17 @@ PROGRAMS = {
     "swallowprint": ("i = 0\nwhile True:\n    try:\n        _mark()\n        while True:\n            i += 1\n"
                      "            if i % 5000 == 0:\n                print('e1')\n    except BaseException:\n        pass\n"),
     "swallowassign": "while True:\n    try:\n        _mark()\n        while True:\n            x = 2\n    except BaseException:\n        pass\n",
+    # ordinary handlers (`except Exception`) must NOT be able to swallow the termination: these end like `busy`/`prints`
+    "excloop": "while True:\n    try:\n        _mark()\n        while True:\n            x = 2\n    except Exception:\n        pass\n",
+    "excloopprint": ("i = 0\nwhile True:\n    try:\n        _mark()\n        while True:\n            i += 1\n            x = 2\n"
+                     "            if i % 5000 == 0:\n                print('e1')\n    except Exception:\n        pass\n"),
     "lock": "import threading\nl = threading.Lock()\nl.acquire()\n_mark()\nl.acquire()\n",
     "swallow_finish": "print('e1')\ntry:\n    _mark()\n    while True:\n        x = 1\nexcept BaseException:\n    pass\ny = 2\n",
     "swallow_raise": "print('e1')\ntry:\n    _mark()\n    while True:\n        x = 1\nexcept BaseException:\n    pass\nraise ValueError('late')\n",
     "gate_finish": "print('e1')\n_mark()\n_gate()\ny = 2\n",
     "gate_raise": "print('e1')\n_mark()\n_gate()\nraise ValueError('at the bell')\n",
 }
-PRINTS_FIRST = {"prints", "swallowprint", "swallow_finish", "swallow_raise", "gate_finish", "gate_raise"}
+PRINTS_FIRST = {"prints", "excloopprint", "swallowprint", "swallow_finish", "swallow_raise", "gate_finish", "gate_raise"}
 CAP = 6.0       # cap of every wait (an expired cap => notes => inconclusive)
 TICK = 0.1      # watchdog sampling period
 GRACE = 2.5     # "bounded delay": blocked on student code for more than limit + GRACE
